@@ -1,8 +1,85 @@
 (* C01 — polygon and box point-membership is exact.
-   This file holds only statements closed by [exact] and their Print Assumptions. *)
-From GV Require Import Prelude GeomM GeomP.
+   This file holds only statements closed by [exact] and their Print Assumptions.
+
+   Model (GeomM.v): pip w p ring = GeoPolygon._point_in_polygon (repaired, D1), the ray running
+   west from p to longitude w (= -180); poly_contains / box_contains = contains_coordinate.
+   Specification (GeomP.v, independent of the code): on_boundary p ring (p on a closed edge,
+   exact), evenodd p ring (odd number of edges crossed by the ray cast EAST, half-open rule),
+   strict_in = ~on_boundary /\ evenodd.  Rings are arbitrary lists of integer points of any
+   length (closed or not: the cyclic edge list closes them), so the theorems hold in particular
+   for every simple ring.  Hypotheses: every vertex strictly east of the ray end
+   (west_ok w ring: longitude > -180) and the query not west of it (w <= px p: longitude >= -180). *)
+From GV Require Import Prelude GeomM GeomP GeomP2 GeomP3.
 Open Scope Z_scope.
 
-Theorem C01_box_in_spec : forall nw se p, box_in nw se p = true <-> box_closed nw se p.
-Proof. exact box_in_spec. Qed.
-Print Assumptions C01_box_in_spec.
+(* a coordinate on the outline is never reported inside *)
+Theorem C01_pip_boundary_false : forall w p r, west_ok w r -> w <= px p ->
+  on_boundary p r -> pip w p r = false.
+Proof. exact pip_boundary_false. Qed.
+Print Assumptions C01_pip_boundary_false.
+
+(* off the outline the westward count with its vertex handling is the eastward even-odd count *)
+Theorem C01_pip_exact : forall w p r, west_ok w r -> w <= px p ->
+  ~ on_boundary p r -> (pip w p r = true <-> evenodd p r).
+Proof. exact pip_exact. Qed.
+Print Assumptions C01_pip_exact.
+
+Theorem C01_pip_strict_in : forall w p r, west_ok w r -> w <= px p ->
+  (pip w p r = true <-> strict_in p r).
+Proof. exact pip_true_iff. Qed.
+Print Assumptions C01_pip_strict_in.
+
+(* a closed chain crosses a horizontal line an even number of times *)
+Theorem C01_straddle_even : forall p r, par (strad p) (cyc_edges r) = false.
+Proof. exact straddle_even. Qed.
+Print Assumptions C01_straddle_even.
+
+(* the bounding-box prefilter never changes the answer *)
+Theorem C01_bbox_prefilter_sound : forall w p r, west_ok w r -> w <= px p ->
+  pip w p r = true -> inside_bbox p r.
+Proof. exact bbox_prefilter_sound. Qed.
+Print Assumptions C01_bbox_prefilter_sound.
+
+Theorem C01_in_bbox_spec : forall p r, r <> [] -> (in_bbox p r = true <-> inside_bbox p r).
+Proof. exact in_bbox_spec. Qed.
+Print Assumptions C01_in_bbox_spec.
+
+(* GeoPolygon.contains_coordinate: strictly inside the outline and in no hole; a polygon hole
+   removes its strict interior, a box hole the closed box (hole_mem) *)
+Theorem C01_poly_contains_spec : forall w o hs p,
+  west_ok w o -> (forall h, In h hs -> hole_ok w h) -> w <= px p ->
+  (poly_contains w o hs p = true <-> strict_in p o /\ forall h, In h hs -> ~ hole_mem h p).
+Proof. exact poly_contains_spec. Qed.
+Print Assumptions C01_poly_contains_spec.
+
+Theorem C01_poly_outer_boundary_false : forall w o hs p,
+  west_ok w o -> (forall h, In h hs -> hole_ok w h) -> w <= px p ->
+  on_boundary p o -> poly_contains w o hs p = false.
+Proof. exact poly_outer_boundary_false. Qed.
+Print Assumptions C01_poly_outer_boundary_false.
+
+Theorem C01_poly_hole_boundary_true : forall w o ho p,
+  west_ok w o -> west_ok w ho -> w <= px p ->
+  strict_in p o -> on_boundary p ho -> poly_contains w o [HPoly ho] p = true.
+Proof. exact poly_hole_boundary_true. Qed.
+Print Assumptions C01_poly_hole_boundary_true.
+
+(* GeoBox.contains_coordinate: inclusive on all four edges and corners, minus holes *)
+Theorem C01_box_contains_spec : forall w nw se hs p,
+  (forall h, In h hs -> hole_ok w h) -> w <= px p ->
+  (box_contains w nw se hs p = true <->
+   box_closed nw se p /\ forall h, In h hs -> ~ hole_mem h p).
+Proof. exact box_contains_spec. Qed.
+Print Assumptions C01_box_contains_spec.
+
+Theorem C01_box_includes_edges : forall w nw se p, w <= px p ->
+  box_closed nw se p -> box_contains w nw se [] p = true.
+Proof. exact box_includes_edges. Qed.
+Print Assumptions C01_box_includes_edges.
+
+(* the clause "a coordinate on a hole's boundary is contained" fails when the hole is a GeoBox *)
+Theorem C01_box_hole_boundary_refuted :
+  exists w o nw se p, west_ok w o /\ w <= px p /\ strict_in p o /\
+    px p = px nw /\ box_closed nw se p /\ poly_contains w o [HBox nw se] p = false.
+Proof. exact box_hole_boundary_refuted. Qed.
+Print Assumptions C01_box_hole_boundary_refuted.
